@@ -40,6 +40,9 @@ func init() {
 		if err != nil {
 			return errutil.Stack(err, "invalid bufferCap: %q", s)
 		}
+		if n > 1<<31-1 {
+			return errutil.Explain(nil, "invalid bufferCap: %q is out of range", s)
+		}
 		BufferCap.Store(int32(n))
 		return nil
 	})
@@ -76,6 +79,9 @@ func ParseHumanizeBytes(s string) (HumanizeBytes, error) {
 	}
 	extra := strings.ToUpper(strings.TrimSpace(s[lastDigit:]))
 	if m, ok := bytesSizeTable[extra]; ok {
+		if f > (1<<63-1)/m {
+			return 0, errutil.Explain(nil, "size out of range: %q", s)
+		}
 		f *= m
 		return HumanizeBytes(f), nil
 	}
